@@ -231,3 +231,45 @@ Example C15_default_mode_example :
   (length (mout (fst xex_fast)), length (mout (fst xex_ref)), length (obs (mout (fst xex_ref)))) = (8, 13, 5)%nat.
 Proof. destruct xex_bulk_obs as (A & B & C & D & _). exact (conj A (conj B (conj C D))). Qed.
 Print Assumptions C15_default_mode_example.
+
+(* ------------------------------------------------------------------------------------------------------------
+   The `regular` hypotheses of the default-mode theorems above discharged for the xml tokenizer (TokIR/BulkTerm.v,
+   Inst/InstBulkTerm.v over TokIR/TermX.v): with fuel above the explicit bound of Props/C04.v
+   (C04_xml_tokenizer_run_terminates) the default-mode run over the chunked queue never runs out of fuel. *)
+From HV Require Inst.InstTermX Inst.InstBulkTerm.
+
+Theorem C15_default_mode_run_is_regular :
+  forall simd ent c1 sk fuel inj chunks (m : mach xstate queue) log,
+  wfq (mq m) -> InstTermX.XmlTI (absm qflat m) ->
+  (InstTermX.xml_fuel (InstTermX.xml_unread (absm qflat m) + length (concat chunks) +
+                       length chunks * (50 * length inj)) <= fuel)%nat -> (4 <= fuel)%nat ->
+  regular log -> regular (snd (drive_chunked xml_flavour false xml_table simd ent c1 sk fuel inj chunks m log)).
+Proof. exact InstBulkTerm.xml_default_regular. Qed.
+Print Assumptions C15_default_mode_run_is_regular.
+
+Theorem C15_default_mode_against_reference_total :
+  forall simd ent c1 sk fuel inject chunks (m : mach xstate queue) log,
+  wfq (mq m) -> InstTermX.XmlTI (absm qflat m) ->
+  (InstTermX.xml_fuel (InstTermX.xml_unread (absm qflat m) + length (concat chunks) +
+                       length chunks * (50 * length inject)) <= fuel)%nat -> (4 <= fuel)%nat ->
+  regular log ->
+  let rf := drive_chunked xml_flavour false xml_table simd ent c1 sk fuel inject chunks m log in
+  exists k, forall j,
+    let rs := drive_flat xml_flavour true xml_table simd ent c1 sk (k + j) inject chunks
+                (mkmach (mc m) (qflat (mq m)) (mout m) (mcons m)) log in
+    snd rs = snd rf /\ obs (mout (fst rs)) = obs (mout (fst rf)) /\ ceq (mc (fst rs)) (mc (fst rf)) /\
+    mq (fst rs) = qflat (mq (fst rf)) /\ mcons (fst rs) = mcons (fst rf).
+Proof. exact InstBulkTerm.xml_bulk_chunked_reference_total. Qed.
+Print Assumptions C15_default_mode_against_reference_total.
+
+Theorem C15_default_mode_is_reference_up_to_obs_total :
+  forall simd ent c1 sk inject s0 last input fuel,
+  (InstTermX.xml_fuel (length input + 50 * length inject) <= fuel)%nat -> (4 <= fuel)%nat ->
+  let fast := drive_chunked xml_flavour false xml_table simd ent c1 sk fuel inject [input]
+                (mkmach (init_cfg s0 last false) [] [] 0%N) [] in
+  exists fuel0, forall fuel', (fuel0 <= fuel')%nat ->
+    let ref := drive_flat xml_flavour true xml_table simd ent c1 sk fuel' inject [input]
+                 (mkmach (init_cfg s0 last false) [] [] 0%N) [] in
+    obs (mout (fst fast)) = obs (mout (fst ref)) /\ snd fast = snd ref.
+Proof. exact InstBulkTerm.xml_default_mode_is_reference_up_to_obs_total. Qed.
+Print Assumptions C15_default_mode_is_reference_up_to_obs_total.
